@@ -626,6 +626,75 @@ let emit tier cfgs seed =
       obl "prop" "aligned_storage default alignment" (string_of_int len)
         (sp "alignof(etl::aligned_storage_t<%d>) >= z::default_align<%d> && sizeof(etl::aligned_storage_t<%d>) >= %d && alignof(etl::aligned_storage_t<%d>) <= alignof(std::max_align_t) && alignof(std::aligned_storage_t<%d>) >= z::default_align<%d>" len len len len len len len))
     [ 1; 2; 3; 4; 5; 7; 8; 9; 12; 15; 16; 17; 24; 32; 64 ];
+  (* ---- numeric_limits: the TYPE of every member (the run-time legs compare values only: `max()` returning
+          int instead of unsigned short prints the same number), noexcept and constant-expression use of the
+          member functions; every arithmetic type x cv *)
+  List.iter (fun a ->
+      List.iter (fun cvs ->
+          let t = arith_name a ^ cvs in
+          let fns = [ "min"; "max"; "lowest"; "epsilon"; "round_error"; "infinity"; "quiet_NaN"; "signaling_NaN"; "denorm_min" ] in
+          let ints = [ "digits"; "digits10"; "max_digits10"; "radix"; "min_exponent"; "min_exponent10"; "max_exponent"; "max_exponent10" ] in
+          let bools = [ "is_specialized"; "is_signed"; "is_integer"; "is_exact"; "has_infinity"; "has_quiet_NaN"; "has_signaling_NaN";
+                        "has_denorm_loss"; "is_iec559"; "is_bounded"; "is_modulo"; "traps"; "tinyness_before" ] in
+          let conj = String.concat " && " in
+          obl "prop" "numeric_limits member types" t
+            (conj (List.map (fun f -> sp "std::is_same_v<decltype(etl::numeric_limits<%s>::%s()), decltype(std::numeric_limits<%s>::%s())> && noexcept(etl::numeric_limits<%s>::%s()) && std::bool_constant<(etl::numeric_limits<%s>::%s(), true)>::value" t f t f t f t f) fns
+                   @ List.map (fun m -> sp "std::is_same_v<decltype(etl::numeric_limits<%s>::%s), int const>" t m) ints
+                   @ List.map (fun m -> sp "std::is_same_v<decltype(etl::numeric_limits<%s>::%s), bool const>" t m) bools
+                   @ [ sp "std::is_same_v<decltype(etl::numeric_limits<%s>::has_denorm), etl::float_denorm_style const>" t;
+                       sp "std::is_same_v<decltype(etl::numeric_limits<%s>::round_style), etl::float_round_style const>" t ])))
+        [ ""; " const"; " volatile"; " const volatile" ])
+    all_arith;
+  (* ---- review round: classes that separate the conjuncts of the concepts (each conjunct is the only false one
+          for some class below), relations that lack exactly one of the four argument orders, byte's compound
+          assignment operators *)
+  line [ "H"; "namespace zr { struct EM { EM(); explicit EM(EM&&); EM& operator=(EM&&); }; struct EC { EC(); EC(EC&&); explicit EC(EC const&); EC& operator=(EC const&); }; struct ECm { ECm(); ECm(ECm&&); ECm(ECm const&); explicit ECm(ECm&); ECm& operator=(ECm const&); }; struct F2 { }; struct T2 { T2(F2 const&); explicit T2(F2&&) = delete; }; struct T3 { explicit T3(F2 const&); }; struct T4 { T4(F2&); T4(F2 const&) = delete; }; struct RelAll { bool operator()(int, int) const; bool operator()(long*, long*) const; bool operator()(int, long*) const; bool operator()(long*, int) const; }; struct RelNoUT { bool operator()(int, int) const; bool operator()(long*, long*) const; bool operator()(int, long*) const; }; struct RelNoTU { bool operator()(int, int) const; bool operator()(long*, long*) const; bool operator()(long*, int) const; }; struct RelNoTT { bool operator()(long*, long*) const; bool operator()(int, long*) const; bool operator()(long*, int) const; }; struct RelNoUU { bool operator()(int, int) const; bool operator()(int, long*) const; bool operator()(long*, int) const; }; struct RelVoid { bool operator()(int, int) const; bool operator()(long*, long*) const; bool operator()(int, long*) const; void operator()(long*, int) const; }; struct RelMut { bool operator()(int, int); bool operator()(long*, long*); bool operator()(int, long*); bool operator()(long*, int); }; }" ];
+  List.iter (fun x ->
+      obl "prop" "concepts (explicit / deleted constructors)" x
+        (String.concat " && " (List.map (fun c -> sp "etl::%s<%s> == std::%s<%s>" c x c x)
+           [ "move_constructible"; "copy_constructible"; "movable"; "copyable"; "semiregular"; "regular"; "default_initializable"; "destructible"; "swappable" ])
+         ^ sp " && etl::is_move_constructible_v<%s> == std::is_move_constructible_v<%s> && etl::is_copy_constructible_v<%s> == std::is_copy_constructible_v<%s> && etl::is_convertible_v<%s, %s> == std::is_convertible_v<%s, %s> && etl::is_convertible_v<%s const&, %s> == std::is_convertible_v<%s const&, %s> && etl::is_nothrow_convertible_v<%s, %s> == std::is_nothrow_convertible_v<%s, %s>" x x x x x x x x x x x x x x x x))
+    [ "zr::EM"; "zr::EC"; "zr::ECm"; "zr::T2"; "zr::T3"; "zr::T4"; "zr::F2" ];
+  List.iter (fun (f, t) ->
+      obl "prop" "convertible_to (implicit and explicit conversion)" (f ^ " ; " ^ t)
+        (sp "etl::convertible_to<%s, %s> == std::convertible_to<%s, %s> && etl::is_convertible_v<%s, %s> == std::is_convertible_v<%s, %s> && etl::constructible_from<%s, %s> == std::constructible_from<%s, %s> && etl::is_nothrow_convertible_v<%s, %s> == std::is_nothrow_convertible_v<%s, %s>" f t f t f t f t t f t f f t f t))
+    [ "zr::F2", "zr::T2"; "zr::F2&", "zr::T2"; "zr::F2 const&", "zr::T2"; "zr::F2&&", "zr::T2"; "zr::F2 const", "zr::T2";
+      "zr::F2", "zr::T3"; "zr::F2 const&", "zr::T3"; "zr::F2&", "zr::T4"; "zr::F2", "zr::T4"; "zr::F2 const&", "zr::T4";
+      "zr::EM", "zr::EM"; "zr::EM&", "zr::EM"; "zr::EC const&", "zr::EC"; "zr::EC&", "zr::EC"; "zr::EC", "zr::EC";
+      "zr::ECm&", "zr::ECm"; "zr::ECm const&", "zr::ECm"; "zr::ECm const", "zr::ECm" ];
+  List.iter (fun r ->
+      List.iter (fun (t, u) ->
+          obl "prop" "relation concepts (argument orders)" (sp "%s ; %s ; %s" r t u)
+            (String.concat " && " (List.map (fun c -> sp "etl::%s<%s, %s, %s> == std::%s<%s, %s, %s>" c r t u c r t u)
+               [ "relation"; "equivalence_relation"; "strict_weak_order" ])
+             ^ sp " && etl::predicate<%s, %s, %s> == std::predicate<%s, %s, %s> && etl::regular_invocable<%s, %s, %s> == std::regular_invocable<%s, %s, %s>" r t u r t u r t u r t u))
+        [ "int", "long*"; "long*", "int"; "int", "int"; "long*", "long*"; "int&", "long* const&" ])
+    [ "zr::RelAll"; "zr::RelNoUT"; "zr::RelNoTU"; "zr::RelNoTT"; "zr::RelNoUU"; "zr::RelVoid"; "zr::RelMut"; "zr::RelMut&"; "zr::RelAll const&" ];
+  line [ "H"; "namespace zr { template <class B> constexpr long long byte_ops(int x, int y, int s) { B b{static_cast<unsigned char>(x)}; B const c{static_cast<unsigned char>(y)}; long long r = 0; b |= c; r = r * 256 + static_cast<int>(b); b = B{static_cast<unsigned char>(x)}; b &= c; r = r * 256 + static_cast<int>(b); b = B{static_cast<unsigned char>(x)}; b ^= c; r = r * 256 + static_cast<int>(b); b = B{static_cast<unsigned char>(x)}; b <<= s; r = r * 256 + static_cast<int>(b); b = B{static_cast<unsigned char>(x)}; b >>= s; r = r * 256 + static_cast<int>(b); b = B{static_cast<unsigned char>(x)}; B& q = ((b |= c) ^= B{0x3C}); q <<= 1; return r * 7 + static_cast<int>(b) + (&q == &b ? 1000 : 0); } }" ];
+  List.iter (fun (x, y, s) ->
+      obl "prop" "byte compound assignment" (sp "%d %d %d" x y s)
+        (sp "zr::byte_ops<etl::byte>(%d, %d, %d) == zr::byte_ops<std::byte>(%d, %d, %d)" x y s x y s))
+    [ 0xA5, 0x0F, 1; 0xFF, 0x81, 7; 0x5A, 0xC3, 3; 0x01, 0xFE, 0; 0x80, 0x7F, 4; 0x33, 0x55, 2 ];
+  obl "prop" "byte compound assignment" "types"
+    "std::is_same_v<decltype(std::declval<etl::byte&>() |= etl::byte{}), etl::byte&> && std::is_same_v<decltype(std::declval<etl::byte&>() &= etl::byte{}), etl::byte&> && std::is_same_v<decltype(std::declval<etl::byte&>() ^= etl::byte{}), etl::byte&> && std::is_same_v<decltype(std::declval<etl::byte&>() <<= 1), etl::byte&> && std::is_same_v<decltype(std::declval<etl::byte&>() >>= 1UL), etl::byte&> && noexcept(std::declval<etl::byte&>() |= etl::byte{}) && noexcept(std::declval<etl::byte&>() <<= 1) && noexcept(etl::byte{} | etl::byte{}) && noexcept(~etl::byte{}) && noexcept(etl::to_integer<int>(etl::byte{})) && std::is_same_v<decltype(etl::byte{} << 1), etl::byte> && std::is_same_v<decltype(~etl::byte{}), etl::byte> && std::is_same_v<decltype(etl::to_integer<short>(etl::byte{})), short>";
+  (* ---- common_type and PROGRAM-DEFINED specialisations ([meta.trans.other]/3.3: when T1 or T2 is not a
+          decayed type the result is that of common_type<D1, D2>, which a program may have specialised;
+          etl itself specialises it for chrono::duration and chrono::time_point) *)
+  line [ "H"; "namespace zb { struct CX { }; struct CY { }; struct CZ { }; }" ];
+  line [ "H"; "template <> struct std::common_type<zb::CX, zb::CY> { using type = zb::CZ; }; template <> struct std::common_type<zb::CY, zb::CX> { using type = zb::CZ; };" ];
+  line [ "H"; "/*etl*/ template <> struct etl::common_type<zb::CX, zb::CY> { using type = zb::CZ; }; template <> struct etl::common_type<zb::CY, zb::CX> { using type = zb::CZ; };" ];
+  line [ "H"; "/*etl*/ namespace zb { using Du3 = etl::chrono::duration<int, etl::ratio<1, 3>>; using Du2 = etl::chrono::duration<long, etl::ratio<1, 2>>; }" ];
+  List.iter (fun (a, b) ->
+      obl "prop" "common_type (program-defined specialisation)" (a ^ " ; " ^ b)
+        (sp "z::common_type_agrees<%s, %s> && z::common_type_agrees<%s, %s> && std::is_same_v<etl::common_type_t<%s, %s>, zb::CZ>" a b b a a b))
+    [ "zb::CX", "zb::CY"; "zb::CX const&", "zb::CY&"; "zb::CX const", "zb::CY"; "zb::CX", "zb::CY volatile";
+      "zb::CX&&", "zb::CY const volatile&"; "zb::CX&", "zb::CY" ];
+  obl "prop" "common_type (program-defined specialisation)" "n-ary, same type"
+    "z::common_type_agrees<zb::CX, zb::CY, zb::CZ> && z::common_type_agrees<zb::CX&, zb::CY const&, zb::CZ&&> && z::common_type_agrees<zb::CX, zb::CY, zb::CX> && z::common_type_agrees<zb::CX&, zb::CX const> && z::common_type_agrees<zb::CY const&>";
+  List.iter (fun (a, b) ->
+      obl "prop" "common_type (etl::chrono specialisations)" (a ^ " ; " ^ b)
+        (sp "std::is_same_v<etl::common_type_t<%s, %s>, etl::common_type_t<zb::Du3, zb::Du2>> && std::is_same_v<etl::common_type_t<%s, %s>, etl::chrono::duration<long, etl::ratio<1, 6>>>" a b b a))
+    [ "zb::Du3", "zb::Du2"; "zb::Du3 const&", "zb::Du2"; "zb::Du3", "zb::Du2&&"; "zb::Du3 const", "zb::Du2 volatile&" ];
   (* ---- variadic / ternary forms, etl extensions, ratio typedefs *)
   List.iter (fun (k, c) -> obl "prop" "misc" k c)
     [ "common_type 3", "z::common_type_agrees<char, short, double> && z::common_type_agrees<int, unsigned, long> && z::common_type_agrees<int*, int const*, void*> && z::common_type_agrees<int, int*, long> && z::common_type_agrees<> && z::common_type_agrees<float, long long, unsigned char, bool>";
@@ -681,7 +750,7 @@ let lval_s = function
   | LI z -> "i " ^ str_of_z z
   | LF (m, e) -> sp "f %s %s" (str_of_z m) (str_of_z e)
   | LInf -> "inf"
-  | LNaN -> "nan"
+  | LNaN s -> if s then "nan s" else "nan q"
 let lmem_names =
   [ "is_specialized"; "min"; "max"; "lowest"; "digits"; "digits10"; "max_digits10"; "is_signed";
     "is_integer"; "is_exact"; "radix"; "epsilon"; "round_error"; "min_exponent"; "min_exponent10";
